@@ -116,8 +116,13 @@ CLAIMED = {
                 "serializer output is tokenised and compared with the model's tokens, the rebuilt real map is snapshotted and compared; "
                 "byte-identical second serialisation and bit-identical coordinates (f32/f64, +-0, subnormals, +-inf, column-width sizes "
                 "9/10/99/100/999/1000) are checked on the implementation directly.",
-        "note": "Trusted: Lean kernel + 3 standard axioms; hand-written token-level model; character-level formatting and float "
-                "printing/parsing (std::fmt, str::parse) are validated, not proved.",
+        "note": "Trusted: Lean kernel + 3 standard axioms; hand-written model. Props/C09b.lean: CHARACTER level — serializeChars mirrors every write! "
+                "of serialize (headers, META, column padding, trailing blanks, newlines; coordinate fields through a parameter fmt assumed "
+                "non-empty and blank-free), the reader's line/section/comment/split_whitespace handling is modelled on characters with Rust's "
+                "full White_Space set and Rust's unsigned from_str; tokenising the written characters gives exactly the token lines "
+                "(C09_chars_tokenise_to_tokens), the character reader is the token reader after tokenising, hence C09_char_level_round_trip; "
+                "the real serializer's BYTES are compared with the character model (all but the two coordinate fields). NOT proved: the "
+                "decimal text of f64/f32 (Display/FromStr), validated by bit-identical round trips on the implementation.",
         "design_ref": "DESIGN.md §7 C09",
     },
     "C10": {
@@ -127,8 +132,11 @@ CLAIMED = {
                 "non-inverse b0/b1, asymmetric b2, ignored null column, linked/repeated unused id, id >= n, vertex on null/removed dart) "
                 "are rejected with an error. Tie: mutation streams and random texts on the real loader vs the model; oracle on the real "
                 "result (error, or WF map agreeing with the text).",
-        "note": "Trusted: Lean kernel + 3 standard axioms; hand-written token-level model; tokenisation (split_whitespace, str::parse) "
-                "validated, not proved. The seven defect classes D5a-g found here were repaired in /repo by one fix: commit.",
+        "note": "Trusted: Lean kernel + 3 standard axioms; hand-written model. Props/C10b.lean: for EVERY character string the loader returns an "
+                "error or a WF map agreeing with the text and never panics (C10_chars_load_wf_or_error, C10_chars_never_panics), with a raw "
+                "character stream (CRLF, tabs, Unicode blanks and look-alikes, signs, overflow, non-digits, broken headers) in the tie. The "
+                "seven defect classes D5a-g found here were repaired in /repo by one fix: commit. Outside the quantifier: non-UTF-8 files "
+                "(read_to_string panics, compared as panic), memory exhaustion on a huge META count.",
         "design_ref": "DESIGN.md §7 C10, §13.3",
     },
     "C12": {
@@ -153,9 +161,13 @@ CLAIMED = {
                 "hypothesis structure: fl(v-v)=0, the (v+u)-v bound, the orientation sign outside an explicit band; skewness in [0,1), "
                 "0 iff equiangular, invariant under rotation/reversal of the corner list and similarities. Tie: ~60 operators run on the "
                 "real crates with exact dyadic inputs vs the model (identical), plus random f32/f64 oracles evaluated with exact Fractions.",
-        "note": "Trusted: Lean kernel + 3 standard axioms; single Mathlib modules in proof files. Not proved: that IEEE arithmetic "
-                "satisfies the rounding model; accuracy of hypot/sqrt/acos; polygon angle sum (hypothesis). Defect D12 (Vector2 -=) found "
-                "and repaired (commit 90eb331).",
+        "note": "Trusted: Lean kernel + 3 standard axioms; single Mathlib modules in proof files. Props/C19b.lean + Lemmas/Rounding.lean: the "
+                "rounding-model hypothesis is DISCHARGED for idealised IEEE arithmetic — rnd p = round-to-nearest-even to p bits with "
+                "unbounded exponent is odd, monotone, exact on representable numbers, relative error <= 2^-p — so every fl-theorem is "
+                "unconditional for rnd 53 / rnd 24; the real f64/f32 + - * / are compared EXACTLY with rnd (48000 hardware operations per "
+                "run incl. 7500 exact ties, plus the Lean rnd through the driver). NOT proved: that the hardware is rnd (validated by that "
+                "stream), overflow/underflow/subnormals (excluded), accuracy of hypot/sqrt/acos, the polygon angle sum. Defect D12 found and "
+                "repaired (90eb331).",
         "design_ref": "DESIGN.md §7 C19",
     },
     "C20": {
@@ -202,7 +214,7 @@ CLAIMED = {
                 "with one sign (strict except for the first examined side, exactly as the code tests), strictly convex CCW polygons are "
                 "accepted (after repair of D7, commit 00af791). Tie: convex/star/reflex-at-every-index/random simple polygons (4-10 sides, "
                 "both orientations, isolated and embedded) on the real kernels vs the model + exact Python oracle (triangle count, "
-                "orientation, area sum, adjacency, untouched faces, WF).",
+                "orientation, area sum, adjacency, untouched faces, WF). Props/C13c.lean: exact triangle structure after ear clipping (n-2 listed triangles, each a closed b1 3-cycle) under the decidable hypothesis that the ear is never found at the last index (necessary: the kernel's vector surgery drops the wrong dart there; holds on simple polygons by the two-ears theorem, not proved); C13_fan_test_iff: exactly what the star test accepts (nothing about the magnitude of the first examined side, with a decide witness of an accepted zero-area triangle).",
         "note": "Trusted: Lean kernel + 3 standard axioms; hand-written kernel models. Props/C13b.lean: successful fan / fan_convex / earclip runs "
                 "preserve WF 3 (closed face, live distinct spare darts — necessary: on an open chain the final sew writes b1(0)); exact "
                 "structure after a fan (n-2 listed triangles, spare darts 2-linked pairwise, every side keeps its neighbour, frame); frame for "
@@ -216,7 +228,7 @@ CLAIMED = {
                 "unchanged: instance of C06), success implies the guards, the i-th new point sits at v1+(v2-v1)*t_i in the slot of the "
                 "vertex id of the i-th new dart (after repair of D11) and lies strictly between the end points in order over Q. Tie: every "
                 "edge of every WF 2-map n<=3 (+k spare darts, k<=3, natural and permuted order), grids, invalid inputs, tx blocks on the "
-                "real kernels vs the model; oracle: chain of k+1 segments on both sides, positions, frame incl. all images of dart 0.",
+                "real kernels vs the model; oracle: chain of k+1 segments on both sides, positions, frame incl. all images of dart 0. Props/C14c.lean: every old dart keeps its vertex orbit, vertex id and coordinates (in every storage), in particular the two end points.",
         "note": "Trusted: Lean kernel + 3 standard axioms; hand-written kernel model. Props/C14b.lean: exact b chain after insertion on both sides, "
                 "b2 pairing in reverse order, frame for every other image, new darts lie in pairwise distinct vertices {fh[t], sh[k-1-t]}, "
                 "position theorem with its side hypothesis discharged. NOT proved: that the vertex orbits of the two end points keep their "
@@ -267,7 +279,7 @@ CLAIMED = {
                 "(crossings are vertices, tiling, areas, coverage, orientation, clipping sides) are NOT theorems: they are evaluated by an "
                 "exact oracle (Fractions on the exact f64 values, explicit tolerances) on the REAL grisubal over generated simple polygons "
                 "and nested polygon sets in general position, cell sizes, three clip modes, mis-oriented variants. Tie for the modelled "
-                "parts: orient/grid-sizing commands answered by both drivers. Props/C16Cross.lean: the intersection step for one segment (all three code paths, any grid, eps-general position) is modelled over Q and tied (new commands gcross/gchain; exact family compared as equal rationals): every reported crossing lies on the segment and on the named grid side, none is missed, strictly sorted, count = |di|+|dj| (the pre-allocated identifiers), one cell between consecutive crossings.",
+                "parts: orient/grid-sizing commands answered by both drivers. Props/C16Cross.lean: the intersection step for one segment (all three code paths, any grid, eps-general position) is modelled over Q and tied (new commands gcross/gchain; exact family compared as equal rationals): every reported crossing lies on the segment and on the named grid side, none is missed, strictly sorted, count = |di|+|dj| (the pre-allocated identifiers), one cell between consecutive crossings. Props/C16Clip.lean: clip_left/right on Boundary-tagged maps (HashSet order a parameter): exactly the darts of the faces reachable from a tagged dart are removed and unlinked, the result is WF, remaining boundary darts 2-free, order-independent; Props/C16Insert.lean: steps 2-3 (grouping per edge, ids, insertion): every written slot k gets its dart at res[k] for every HashMap order (after repair of D16c), distinct darts, composed with C14's insertion theorems for one edge; tied through the cfg(honeycomb_verif) hooks intersection_data / intersection_darts / clip (exact text equality on the exact family).",
         "note": "Partial: only the discrete sub-algorithms are proved; the pipeline (intersections, edge bookkeeping with HashMap-ordered dart "
                 "numbering, epsilon bands, clip closure - pub(crate), not reachable from the public API) is validated on the implementation, "
                 "not modelled. Known findings D16a (a boundary loop inside one cell is silently dropped) and D16b (negatively oriented "
